@@ -132,6 +132,9 @@ func bytesOf(m *uasc.MessageBody) []byte {
 }
 
 func encodeBody(m *uasc.MessageBody) string {
+	if m.Err != nil {
+		return "error: " + m.Err.Error()
+	}
 	if r := m.Request(); r != nil {
 		return h.RecvServiceHex(r)
 	}
@@ -226,7 +229,12 @@ func (e *env) exec(c *ccase, rnd *h.Rand) ([]*delivered, error) {
 			break
 		}
 		if m.Err != nil {
-			return nil, fmt.Errorf("Receive: %v", m.Err)
+			if strings.Contains(m.Err.Error(), "timeout") {
+				return nil, fmt.Errorf("Receive: %v", m.Err)
+			}
+			// a well-formed stream must not produce errors: reported by the oracle
+			out = append(out, &delivered{req: m.RequestID, msg: m, snapshot: "error: " + m.Err.Error()})
+			continue
 		}
 		dv := &delivered{req: m.RequestID, msg: m, snapshot: encodeBody(m)}
 		if b := bytesOf(m); len(b) > 0 {
@@ -345,6 +353,12 @@ func (e *env) runCase(c *ccase, parallel bool) {
 	for _, o := range c.ops {
 		if o.final {
 			nfinal++
+		}
+	}
+	for _, dv := range all {
+		if strings.HasPrefix(dv.snapshot, "error: ") {
+			e.r.Fail(text, "", "Receive returned an error on a well-formed stream (request "+fmt.Sprint(dv.req)+"): "+dv.snapshot)
+			return
 		}
 	}
 	if len(ds) != nfinal {
